@@ -163,6 +163,9 @@ func TestC08(t *testing.T) {
 			{Concurrency: 1, Restart: true, Ops: []envOp{{Kind: "send", Arg: reqCall(1, "c1", "ok")}, {Kind: "stop"}, {Kind: "send", Arg: `{bad`}}},
 			{Concurrency: 1, Restart: true, Ops: []envOp{{Kind: "send", Arg: reqNote("n1", "ok")}, {Kind: "send", Arg: reqNote("n2", "ok")}, {Kind: "send", Arg: `{"jsonrpc":"2.0","method":"m","params":["n3","ok"],"zz":1}`}, {Kind: "stop"}}},
 			{Concurrency: 2, AllowPush: true, Restart: true, Ops: []envOp{{Kind: "send", Arg: reqCall(1, "c1", "ok")}, {Kind: "callback", Arg: "k1"}, {Kind: "stop"}}},
+			// notifications written with an explicit null id, queued behind an earlier notification when the server stops
+			{Concurrency: 1, Restart: true, Ops: []envOp{{Kind: "send", Arg: reqNote("n1", "ok")}, {Kind: "send", Arg: `{"jsonrpc":"2.0","id":null,"method":"m","params":["n2","ok"]}`},
+				{Kind: "send", Arg: reqBatch(`{"jsonrpc":"2.0","id":null,"method":"m","params":["n3","ok"]}`, reqCall(4, "c4", "ok"), reqNote("n5", "ok"))}, {Kind: "stop"}}},
 			{Concurrency: 2, AllowPush: true, SendFailAt: 1, Ops: []envOp{{Kind: "callback", Arg: "k1"}, {Kind: "send", Arg: reqCall(1, "c1", "ok")}, {Kind: "stop"}}},
 			{Concurrency: 2, AllowPush: true, SendFailAt: 2, Ops: []envOp{{Kind: "notify", Arg: "p1"}, {Kind: "callback", Arg: "k1"}, {Kind: "callback", Arg: "k2"}, {Kind: "close"}}},
 		}
